@@ -163,7 +163,7 @@ def run_tlc(ctx, name, module_text, cfg_text, workers=1, simulate=None, depth=No
         with open(os.path.join(d, fn), "w") as f:
             f.write(txt)
     lib = os.pathsep.join([SPEC, os.path.join(SPEC, "lib")])
-    cmd = ["java", "-XX:+UseParallelGC", "-Xmx8g", "-DTLA-Library=" + lib]
+    cmd = ["java", "-XX:+UseParallelGC", "-Xmx8g", "-Xss256m", "-DTLA-Library=" + lib]
     if dfs:
         cmd.append("-Dtlc2.tool.queue.IStateQueue=StateDeque")
     cmd += ["-cp", TLA_JAR + ":" + TLA_DEPS, "tlc2.TLC",
